@@ -277,6 +277,10 @@ func (b *builder) runVec32(c *vrun.Ctx, rc rawCase) error {
 	}
 	// round trip through the bare codec
 	hrp, dec, ver, err := bech32.DecodeGeneric(ex.Good)
+	if len(ex.Good) > 90 {
+		// beyond the length of a bech32 string: the length-agnostic decoder
+		hrp, dec, ver, err = bech32.DecodeNoLimitWithVersion(ex.Good)
+	}
 	c.AddEval(1)
 	wantVer := bech32.VersionM
 	if cs.Ver == 0 {
@@ -308,7 +312,7 @@ func (b *builder) runVec32(c *vrun.Ctx, rc rawCase) error {
 			if s == ex.Wrong {
 				want = ex.WrongAbs
 			}
-			if s != ex.Good && s != ex.Wrong {
+			if s != ex.Good && s != ex.Wrong && want.Defect == "none" {
 				want.Case = "upper"
 			}
 			c.AddEval(1)
@@ -318,7 +322,7 @@ func (b *builder) runVec32(c *vrun.Ctx, rc rawCase) error {
 		}
 	}
 	// constructors of the address package produce the same string
-	if p := b.paramsForHrp(cs.Hrp); p != "" {
+	if p := b.paramsForHrp(cs.Hrp); p != "" && len(ex.Good) <= 90 {
 		var ad address.Address
 		pp := b.t.w.params[p]
 		switch {
